@@ -8,10 +8,10 @@ import (
 // generators for the "route table + lookups" cases (executor rt.go)
 
 type varKind struct {
-	re      string   // text after ':' ("" = default [^/]+)
-	name    string   // forced name (global variables)
-	good    []string // values the regex accepts
-	bad     []string // values it rejects
+	re   string   // text after ':' ("" = default [^/]+)
+	name string   // forced name (global variables)
+	good []string // values the regex accepts
+	bad  []string // values it rejects
 }
 
 var rtVarKinds = []varKind{
@@ -45,8 +45,8 @@ type rtPart struct {
 }
 
 type rtPat struct {
-	req  [][]rtPart // required segments; each segment = parts
-	opt  [][]rtPart // optional tail levels, each level a (slash + segment) or a suffix like ".html"
+	req      [][]rtPart // required segments; each segment = parts
+	opt      [][]rtPart // optional tail levels, each level a (slash + segment) or a suffix like ".html"
 	optSlash []bool
 }
 
